@@ -10,7 +10,7 @@ What is new here (everything else on the analysis path is modelled in `Edit`, `N
 
 * `analysis/lattice.rs`: `reset`/`connect_bos`, `connect_node` with **`i32` additions** (two of them,
   in the order `(total + connect) + node_cost`), the `i32::MAX` "not connected" sentinel, the
-  back-pointer `NodeIdx::new(begin as u16, i as u16)`, `insert` (row indexing), `connect_eos`
+  back-pointer `NodeIdx::new(begin as u16, i as u32)` (row index `u32` since 9fb3dd8), `insert` (row indexing), `connect_eos`
   (`(len - 1) as u16`), `fill_top_path`, `node`;
 * `analysis/stateful_tokenizer.rs`: `resolve_best_path` (`to_curr_byte_idx`, `as u16`), the stages of
   `do_tokenize` in their order with `?` propagation;
@@ -48,6 +48,14 @@ def addI32 : Int → Int → Option Int := addW I32_MAX
 /-- `x as u16` for a `usize` -/
 def asU16 (n : Nat) : Nat := n % 65536
 
+/-- `i as u32`: the row index of a back-pointer (`NodeIdx.index`; `u32` since the repair 9fb3dd8 in /repo — before it the
+index was `i as u16` and wrapped in a row of more than 65536 candidates, `Props/C02.lean`/`C03.lean`:
+`row_index_u16_wraps_counterexample`) -/
+def asU32 (n : Nat) : Nat := n % 4294967296
+
+/-- `NodeIdx::empty().index` = `u32::MAX` -/
+def idxNone : Nat := 4294967295
+
 /-! ## the lattice with `i32` totals -/
 
 /-- one stored candidate: `ends_full[e][i]` (node), `ends[e][i].total_cost`, `indices[e][i]` -/
@@ -74,12 +82,12 @@ def connGo (n : Vit.Node) : List Entry → Nat → Int × Nat × Nat → Option 
       | some x => match add x n.c with                     --                       … + node_cost
         | none => none
         | some nc =>
-          if nc < st.1 then connGo n rest (i + 1) (nc, asU16 n.b, asU16 i)
+          if nc < st.1 then connGo n rest (i + 1) (nc, asU16 n.b, asU32 i)
           else connGo n rest (i + 1) st
 
 /-- `Lattice::connect_node` on the row `ends[begin]` -/
 def connectNode (row : List Entry) (n : Vit.Node) : Option (Int × Nat × Nat) :=
-  connGo add M conn n row 0 (M, 65535, 65535)
+  connGo add M conn n row 0 (M, 65535, idxNone)
 
 abbrev Rows := Array (List Entry)
 
